@@ -220,11 +220,53 @@ theorem scanNumber_append {ds rest : List Char} (hd : ∀ c ∈ ds, isDigitCh c 
     rw [ih (fun x hx => hd x (List.mem_cons_of_mem _ hx))]
     simp
 
-theorem toInt_error {ds : List Char} {e : Err} (h : toInt ds = .error e) : e = .valueError := by
-  unfold toInt at h; split at h <;> cases h; rfl
+/-! ## `_to_int`: plain ASCII decimal numbers only -/
 
-theorem toInt_ok {ds : List Char} {p : Int} : toInt ds = .ok p ↔ pyInt ds = some p := by
-  unfold toInt; split <;> simp_all
+theorem isAsciiDigit_eq (c : Char) : isAsciiDigit c = c.isDigit := by
+  simp only [isAsciiDigit, Char.isDigit, Char.le_def, UInt32.le_iff_toNat_le, ge_iff_le]
+
+theorem asciiDigit_isDigitCh {c : Char} (h : isAsciiDigit c = true) : isDigitCh c = true :=
+  ascii_isDigitCh (by rwa [isAsciiDigit_eq] at h)
+
+theorem toInt_error {ds : List Char} {e : Err} (h : toInt ds = .error e) : e = .valueError := by
+  unfold toInt at h
+  split at h
+  · cases h; rfl
+  · split at h <;> cases h; rfl
+
+/-- `_to_int` succeeds exactly on ASCII-digit strings on which `int()` succeeds
+(non-emptiness is implied by `int()` succeeding) -/
+theorem toInt_ok {ds : List Char} {p : Int} :
+    toInt ds = .ok p ↔ (∀ c ∈ ds, isAsciiDigit c = true) ∧ pyInt ds = some p := by
+  unfold toInt
+  by_cases ha : ∀ c ∈ ds, isAsciiDigit c = true
+  · cases ds with
+    | nil => simp [pyInt_nil]
+    | cons x a =>
+      have : (x :: a).all isAsciiDigit = true := List.all_eq_true.2 ha
+      simp only [List.isEmpty_cons, this, Bool.not_true, Bool.or_self, Bool.false_eq_true, if_false]
+      cases pyInt (x :: a) with
+      | none => simp
+      | some v => simp only [Except.ok.injEq, Option.some.injEq]; exact ⟨fun h => ⟨ha, h⟩, fun h => h.2⟩
+  · have : ds.all isAsciiDigit = false := by
+      cases h : ds.all isAsciiDigit
+      · rfl
+      · exact absurd (List.all_eq_true.1 h) ha
+    simp [this, ha]
+
+theorem toInt_nonascii {ds : List Char} (h : ∃ c ∈ ds, isAsciiDigit c = false) :
+    toInt ds = .error .valueError := by
+  cases hr : toInt ds with
+  | error e => rw [toInt_error hr]
+  | ok p =>
+    obtain ⟨c, hc, hf⟩ := h
+    rw [(toInt_ok.1 hr).1 c hc] at hf; cases hf
+
+theorem toInt_of_pyInt_none {ds : List Char} (h : pyInt ds = none) :
+    toInt ds = .error .valueError := by
+  cases hr : toInt ds with
+  | error e => rw [toInt_error hr]
+  | ok p => rw [(toInt_ok.1 hr).2] at h; cases h
 
 /-! ## `parseOps` equations -/
 
@@ -265,7 +307,7 @@ theorem parseOps_dense {c : Char} {t : List Char} {acc : List Letter} (h : c ∈
 /-- the positioned branch when the number scans and converts -/
 theorem parseOps_pos_ok {c : Char} {ds rest : List Char} {acc : List Letter} {p : Int}
     (h : c ∈ GATES) (hne : ds ≠ []) (hd : ∀ x ∈ ds, isDigitCh x = true)
-    (hr : ∀ x, rest.head? = some x → isToken x = true) (hp : pyInt ds = some p) :
+    (hr : ∀ x, rest.head? = some x → isToken x = true) (hp : toInt ds = .ok p) :
     parseOps (c :: '_' :: ds ++ rest) acc =
       if p - acc.length - 1 < 0 then .error .valueError
       else parseOps rest (acc ++ List.replicate (p - acc.length - 1).toNat Letter.I ++ [gateLetter c]) := by
@@ -273,7 +315,7 @@ theorem parseOps_pos_ok {c : Char} {ds rest : List Char} {acc : List Letter} {p 
   have := parseOps_pos (c := c) (d := d) (t' := t' ++ rest) (acc := acc) h
   rw [show c :: '_' :: (d :: t') ++ rest = c :: '_' :: d :: (t' ++ rest) by simp, this]
   rw [show d :: (t' ++ rest) = (d :: t') ++ rest by simp, scanNumber_append hd hr]
-  simp only [posStep, toInt_ok.2 hp]
+  simp only [posStep, hp]
 
 /-! ## `splitAtSize` and `parse` -/
 
@@ -341,44 +383,47 @@ theorem parse_noSize {t : List Char} (h : 's' ∉ t) : parse t = parseOps t [] :
   unfold parse; rw [splitAtSize_none h]
   cases h' : parseOps t [] <;> simp [h', bind, Except.bind, pure, Except.pure]
 
+theorem toInt_nil : toInt [] = .error .valueError := rfl
+
 theorem parse_size {b a : List Char} (h : 's' ∉ b) :
     parse (b ++ 's' :: a) =
-      if a = [] then .error .valueError
-      else match pyInt a with
-        | none => .error .valueError
-        | some sz =>
-          match parseOps b [] with
-          | .error e => .error e
-          | .ok new => finish new sz := by
+      match toInt a with
+      | .error _ => .error .valueError
+      | .ok sz =>
+        match parseOps b [] with
+        | .error e => .error e
+        | .ok new => finish new sz := by
   unfold parse; rw [splitAtSize_append h]
   cases a with
   | nil => rfl
   | cons x a =>
-    simp only [List.isEmpty_cons, toInt]
-    cases pyInt (x :: a) with
-    | none => rfl
-    | some sz =>
+    simp only [List.isEmpty_cons]
+    cases ht : toInt (x :: a) with
+    | error e => rw [toInt_error ht]; rfl
+    | ok sz =>
       cases h' : parseOps b [] with
       | error e => simp [h', bind, Except.bind, pure, Except.pure]
       | ok new =>
         simp only [finish]
         split <;> simp_all [bind, Except.bind, pure, Except.pure, throw, throwThe, MonadExceptOf.throw]
 
-
 /-! ## The grammar, as a big-step relation -/
 
 /-- `Body acc t r`: starting with content `acc` (`new_pauli_string`), the size-free text `t`
 is well formed and expands to `r`.  The three constructors are the grammar
-`body ::= ε | G body | G '_' D⁺ body`; the side conditions are the rejection clauses:
-(a) only gate letters, `_` and digit characters occur, in this shape;
+`body ::= ε | G body | G '_' D⁺ body` with `D` an ASCII digit `0`..`9` (the STRICT
+notation of the repaired source); the side conditions are the rejection clauses:
+(a) only gate letters, `_` and ASCII digits occur, in this shape;
 (b) `acc.length < p`: the position strictly exceeds the current length;
-(c) `pyInt ds = some p`: a number is present after `_`. -/
+(c) `pyInt ds = some p`: a number is present after `_` (on ASCII digit strings `pyInt`
+    is the plain decimal value, and fails exactly when `ds` is empty or has more than
+    4300 digits, see `pyInt_digits`). -/
 inductive Body : List Letter → List Char → List Letter → Prop
   | nil (acc : List Letter) : Body acc [] acc
   | dense {acc : List Letter} {g : Char} {t : List Char} {r : List Letter} :
       g ∈ GATES → Body (acc ++ [gateLetter g]) t r → Body acc (g :: t) r
   | pos {acc : List Letter} {g : Char} {ds t : List Char} {r : List Letter} {p : Int} :
-      g ∈ GATES → (∀ c ∈ ds, isDigitCh c = true) → pyInt ds = some p → (acc.length : Int) < p →
+      g ∈ GATES → (∀ c ∈ ds, isAsciiDigit c = true) → pyInt ds = some p → (acc.length : Int) < p →
       Body (acc ++ List.replicate (p - acc.length - 1).toNat Letter.I ++ [gateLetter g]) t r →
       Body acc (g :: '_' :: ds ++ t) r
 
@@ -393,7 +438,7 @@ theorem Body.head_token {acc r : List Letter} {t : List Char} (h : Body acc t r)
 
 /-- clause (a): every character of a well-formed body is in the alphabet -/
 theorem Body.alphabet {acc r : List Letter} {t : List Char} (h : Body acc t r) :
-    ∀ c ∈ t, c ∈ GATES ∨ c = '_' ∨ isDigitCh c = true := by
+    ∀ c ∈ t, c ∈ GATES ∨ c = '_' ∨ isAsciiDigit c = true := by
   induction h with
   | nil => simp
   | dense hg _ ih =>
@@ -430,7 +475,8 @@ theorem parseOps_of_Body {acc r : List Letter} {t : List Char} (h : Body acc t r
     have := hb.head_gate '_' (by simp [e])
     exact underscore_not_gate this
   | @pos acc g ds t r p hg hd hp hlt hb ih =>
-    rw [parseOps_pos_ok hg (pyInt_some_ne_nil hp) hd hb.head_token hp, if_neg (by omega), ih]
+    rw [parseOps_pos_ok hg (pyInt_some_ne_nil hp) (fun c h => asciiDigit_isDigitCh (hd c h))
+      hb.head_token (toInt_ok.2 ⟨hd, hp⟩), if_neg (by omega), ih]
 
 /-- completeness: everything `parseOps` accepts is derivable -/
 theorem Body_of_parseOps {acc r : List Letter} {t : List Char} (h : parseOps t acc = .ok r) :
@@ -450,7 +496,7 @@ theorem Body_of_parseOps {acc r : List Letter} {t : List Char} (h : parseOps t a
     simp only [posStep, hp, if_neg hlt] at h
     obtain ⟨h1, h2, _⟩ := scanNumber_ok hs
     rw [h1]
-    exact .pos (by simpa using hc) h2 (toInt_ok.1 hp) (by omega) (ih h)
+    exact .pos (by simpa using hc) (toInt_ok.1 hp).1 (toInt_ok.1 hp).2 (by omega) (ih h)
   | case7 acc c t hc hne _ ih =>
     have hc' : c ∈ GATES := by simpa using hc
     rw [parseOps_dense hc' (fun d t' e => by subst e; exact hne d t' rfl rfl HEq.rfl)] at h
@@ -485,18 +531,19 @@ theorem parseOps_error {acc : List Letter} {t : List Char} {e : Err}
 
 
 /-- The whole notation: a well-formed body, optionally followed by `s` and a
-number (clause (c)) that is at least the content length (clause (d)). -/
+non-empty ASCII-digit number (clause (c)) that is at least the content length
+(clause (d)). -/
 inductive Accepts : List Char → List Letter → Prop
   | noSize {t : List Char} {w : List Letter} : Body [] t w → Accepts t w
   | size {b sz : List Char} {w : List Letter} {k : Int} :
-      Body [] b w → pyInt sz = some k → (w.length : Int) ≤ k →
+      Body [] b w → (∀ c ∈ sz, isAsciiDigit c = true) → pyInt sz = some k → (w.length : Int) ≤ k →
       Accepts (b ++ 's' :: sz) (w ++ List.replicate (k - w.length).toNat Letter.I)
 
 theorem parse_of_Accepts {t : List Char} {w : List Letter} (h : Accepts t w) : parse t = .ok w := by
   cases h with
   | noSize hb => rw [parse_noSize hb.no_s, parseOps_of_Body hb]
-  | @size b sz w k hb hk hle =>
-    rw [parse_size hb.no_s, if_neg (pyInt_some_ne_nil hk), hk, parseOps_of_Body hb]
+  | @size b sz w k hb ha hk hle =>
+    rw [parse_size hb.no_s, toInt_ok.2 ⟨ha, hk⟩, parseOps_of_Body hb]
     simp only [finish]; rw [if_neg (by omega)]
 
 theorem Accepts_of_parse {t : List Char} {w : List Letter} (h : parse t = .ok w) : Accepts t w := by
@@ -510,17 +557,15 @@ theorem Accepts_of_parse {t : List Char} {w : List Letter} (h : parse t = .ok w)
     rw [parse_size hb] at h
     split at h
     · cases h
-    · split at h
+    · rename_i k hk
+      split at h
       · cases h
-      · rename_i k hk
+      · rename_i new hnew
+        simp only [finish] at h
         split at h
         · cases h
-        · rename_i new hnew
-          simp only [finish] at h
-          split at h
-          · cases h
-          · cases h
-            exact .size (Body_of_parseOps hnew) hk (by omega)
+        · cases h
+          exact .size (Body_of_parseOps hnew) (toInt_ok.1 hk).1 (toInt_ok.1 hk).2 (by omega)
 
 theorem parse_ok_iff {t : List Char} {w : List Letter} : parse t = .ok w ↔ Accepts t w :=
   ⟨Accepts_of_parse, parse_of_Accepts⟩
@@ -537,13 +582,11 @@ theorem parse_error {t : List Char} {e : Err} (h : parse t = .error e) : e = .va
     split at h
     · cases h; rfl
     · split at h
-      · cases h; rfl
-      · split at h
-        · rename_i e' he; cases h; exact parseOps_error he
-        · simp only [finish] at h
-          split at h
-          · cases h; rfl
-          · cases h
+      · rename_i e' he; cases h; exact parseOps_error he
+      · simp only [finish] at h
+        split at h
+        · cases h; rfl
+        · cases h
 
 /-- a text is either accepted or rejected with `ValueError` -/
 theorem parse_ok_or_valueError (t : List Char) :
@@ -575,7 +618,8 @@ theorem parseOps_append_of_Body {acc0 acc : List Letter} {pre rest : List Char}
       | nil => exact isToken_of_gate (hr c hc)
       | cons x t => exact hb.head_token c hc
     rw [show (g :: '_' :: ds ++ t) ++ rest = g :: '_' :: ds ++ (t ++ rest) by simp,
-      parseOps_pos_ok hg (pyInt_some_ne_nil hp) hd htok hp, if_neg (by omega), ih]
+      parseOps_pos_ok hg (pyInt_some_ne_nil hp) (fun c h => asciiDigit_isDigitCh (hd c h)) htok
+        (toInt_ok.2 ⟨hd, hp⟩), if_neg (by omega), ih]
 
 theorem Body.append {a b c : List Letter} {s t : List Char}
     (h1 : Body a s b) (h2 : Body b t c) : Body a (s ++ t) c := by
@@ -598,6 +642,9 @@ theorem natToDigits_ascii {n : Nat} {c : Char} (h : c ∈ natToDigits n) : c.isD
 
 theorem natToDigits_isDigitCh {n : Nat} : ∀ c ∈ natToDigits n, isDigitCh c = true :=
   fun _ h => ascii_isDigitCh (natToDigits_ascii h)
+
+theorem natToDigits_asciiDigit {n : Nat} : ∀ c ∈ natToDigits n, isAsciiDigit c = true :=
+  fun c h => by rw [isAsciiDigit_eq]; exact natToDigits_ascii h
 
 theorem natToDigits_length {n : Nat} (h : n < 10 ^ maxStrDigits) :
     (natToDigits n).length ≤ maxStrDigits :=
@@ -701,7 +748,7 @@ theorem Body_renderItems {acc : List Letter} {items : List Item}
         (by rw [hlen]; exact h3)
       have hb := Body.pos (acc := acc) (g := l.toChar) (ds := natToDigits p) (p := (p : Int))
         (t := renderItems is) (r := expandFrom acc (.at l p :: is))
-        (toChar_mem_GATES l) natToDigits_isDigitCh (pyInt_natToDigits h2) (by omega)
+        (toChar_mem_GATES l) natToDigits_asciiDigit (pyInt_natToDigits h2) (by omega)
         (by
           rw [gateLetter_toChar, show ((p : Int) - acc.length - 1).toNat = p - acc.length - 1 by omega]
           exact this)
@@ -716,7 +763,7 @@ theorem parse_renderMixed {items : List Item} {size : Option Nat}
   | none => simpa [renderMixed, denseMixed, padTo] using Accepts.noSize hb
   | some k =>
     obtain ⟨h1, h2⟩ := hs
-    have := Accepts.size hb (pyInt_natToDigits h2) (by omega)
+    have := Accepts.size hb natToDigits_asciiDigit (pyInt_natToDigits h2) (by omega)
     rw [show ((k : Int) - (expandFrom [] items).length).toNat = k - (expandFrom [] items).length by omega] at this
     simpa [renderMixed, denseMixed, padTo] using this
 
@@ -962,25 +1009,35 @@ theorem mkPS_none (t : List Char) :
 /-! ## Size suffix -/
 
 theorem parse_size_pad_ok {w : List Letter} {sz : List Char} {k : Int}
+    (ha : ∀ c ∈ sz, isAsciiDigit c = true)
     (hk : pyInt sz = some k) (h : (w.length : Int) ≤ k) :
     parse (w.map Letter.toChar ++ 's' :: sz) =
       .ok (w ++ List.replicate (k - w.length).toNat Letter.I) :=
-  parse_of_Accepts (.size (by simpa using Body_dense [] w) hk h)
+  parse_of_Accepts (.size (by simpa using Body_dense [] w) ha hk h)
 
 /-- clause (d) in general: a size smaller than the content is rejected -/
 theorem parse_size_too_small {b sz : List Char} {w : List Letter} {k : Int}
     (hb : Body [] b w) (hk : pyInt sz = some k) (h : k < w.length) :
     parse (b ++ 's' :: sz) = .error .valueError := by
-  rw [parse_size hb.no_s, if_neg (pyInt_some_ne_nil hk), hk, parseOps_of_Body hb]
-  simp only [finish]; rw [if_pos h]
+  rw [parse_size hb.no_s]
+  cases ht : toInt sz with
+  | error e => rfl
+  | ok k' =>
+    have : k' = k := by
+      have := (toInt_ok.1 ht).2; rw [hk] at this; cases this; rfl
+    subst this
+    simp only [parseOps_of_Body hb, finish]; rw [if_pos h]
 
 /-- clause (c) for the size: no number after `s` -/
 theorem parse_size_missing {b sz : List Char} (hb : 's' ∉ b) (hk : pyInt sz = none) :
     parse (b ++ 's' :: sz) = .error .valueError := by
-  rw [parse_size hb]
-  split
-  · rfl
-  · rw [hk]
+  rw [parse_size hb, toInt_of_pyInt_none hk]
+
+/-- strict notation for the size: a character that is not an ASCII digit after `s` -/
+theorem parse_size_nonascii {b sz : List Char} (hb : 's' ∉ b)
+    (h : ∃ c ∈ sz, isAsciiDigit c = false) :
+    parse (b ++ 's' :: sz) = .error .valueError := by
+  rw [parse_size hb, toInt_nonascii h]
 
 /-! ## Rejection of a single bad item after a well-formed prefix -/
 
@@ -990,13 +1047,11 @@ theorem parse_of_body_error {b sz : List Char} {e : Err} (hb : 's' ∉ b)
   rw [parse_size hb]
   split
   · rfl
-  · split
-    · rfl
-    · rw [h, parseOps_error h]
+  · rw [h, parseOps_error h]
 
 /-- clause (a): a character outside the alphabet anywhere in the body -/
 theorem parseOps_bad_char {t : List Char} {acc : List Letter} {c : Char}
-    (hm : c ∈ t) (hc : c ∉ GATES) (hc' : c ≠ '_') (hc'' : isDigitCh c = false) :
+    (hm : c ∈ t) (hc : c ∉ GATES) (hc' : c ≠ '_') (hc'' : isAsciiDigit c = false) :
     parseOps t acc = .error .valueError := by
   cases h : parseOps t acc with
   | error e => rw [parseOps_error h]
@@ -1006,15 +1061,26 @@ theorem parseOps_bad_char {t : List Char} {acc : List Letter} {c : Char}
     · exact absurd h hc'
     · rw [hc''] at h; cases h
 
-/-- clause (b): a position that does not exceed the current content length -/
+/-- clause (b): a position that does not exceed the current content length
+(stated for any scanned digit characters; non-ASCII ones are rejected anyway) -/
 theorem parseOps_bad_position {pre ds post : List Char} {acc0 acc : List Letter} {g : Char} {p : Int}
     (hpre : Body acc0 pre acc) (hg : g ∈ GATES) (hd : ∀ c ∈ ds, isDigitCh c = true)
     (hp : pyInt ds = some p) (hle : p ≤ acc.length)
     (hpost : ∀ c, post.head? = some c → isToken c = true) :
     parseOps (pre ++ g :: '_' :: ds ++ post) acc0 = .error .valueError := by
   rw [show pre ++ g :: '_' :: ds ++ post = pre ++ (g :: '_' :: ds ++ post) by simp,
-    parseOps_append_of_Body hpre (by simp [hg]),
-    parseOps_pos_ok hg (pyInt_some_ne_nil hp) hd hpost hp, if_pos (by omega)]
+    parseOps_append_of_Body hpre (by simp [hg])]
+  cases ht : toInt ds with
+  | error e =>
+    obtain ⟨d, t', rfl⟩ := List.exists_cons_of_ne_nil (pyInt_some_ne_nil hp)
+    rw [show g :: '_' :: (d :: t') ++ post = g :: '_' :: d :: (t' ++ post) by simp, parseOps_pos hg,
+      show d :: (t' ++ post) = (d :: t') ++ post by simp, scanNumber_append hd hpost]
+    simp only [posStep, ht, toInt_error ht]
+  | ok p' =>
+    have : p' = p := by
+      have := (toInt_ok.1 ht).2; rw [hp] at this; cases this; rfl
+    subst this
+    rw [parseOps_pos_ok hg (pyInt_some_ne_nil hp) hd hpost ht, if_pos (by omega)]
 
 /-- clause (c): `G_` not followed by a digit character (end of text or a token) -/
 theorem parseOps_missing_number {pre post : List Char} {acc0 acc : List Letter} {g : Char}
@@ -1028,7 +1094,7 @@ theorem parseOps_missing_number {pre post : List Char} {acc0 acc : List Letter} 
   | cons c t =>
     have hs : scanNumber (c :: t) = .ok ([], c :: t) := by simp [scanNumber, hpost c rfl]
     rw [parseOps_pos hg, hs]
-    simp [posStep, toInt, pyInt_nil]
+    simp [posStep, toInt_nil]
 
 /-- clause (c), digit limit: a number with more than 4300 digits -/
 theorem parseOps_number_too_long {pre ds post : List Char} {acc0 acc : List Letter} {g : Char}
@@ -1042,7 +1108,7 @@ theorem parseOps_number_too_long {pre ds post : List Char} {acc0 acc : List Lett
   rw [show pre ++ g :: '_' :: (d :: t') ++ post = pre ++ (g :: '_' :: d :: (t' ++ post)) by simp,
     parseOps_append_of_Body hpre (by simp [hg]), parseOps_pos hg,
     show d :: (t' ++ post) = (d :: t') ++ post by simp, scanNumber_append hd hpost]
-  simp [posStep, toInt, hp]
+  simp [posStep, toInt_of_pyInt_none hp]
 
 
 /-! ## Termination: a fuel-indexed copy of the main loop -/
@@ -1129,13 +1195,12 @@ theorem parse_eq_parseK (t : List Char) : parse t = parseK t := by
     cases a with
     | nil => rfl
     | cons x a =>
-      simp only [toInt, List.isEmpty_cons]
+      simp only [List.isEmpty_cons]
       rw [if_neg (by simp)]
-      cases pyInt (x :: a) with
-      | none => rfl
-      | some k =>
+      cases ht : toInt (x :: a) with
+      | error e => rw [toInt_error ht]
+      | ok k =>
         simp only [parseOpsFuel_eq (Nat.le_refl _), Option.getD_some]
-        cases parseOps b [] <;> rfl
 
 deriving instance DecidableEq for Except
 
@@ -1159,8 +1224,8 @@ instance : DecidablePred WellFormed := fun _ => decidable_of_iff _ wellFormed_if
 /-- the part of the text before the first `s` -/
 def bodyOf (t : List Char) : List Char := t.takeWhile (· != 's')
 
-/-- the notation's alphabet before the size marker -/
-def inAlphabet (c : Char) : Bool := GATES.contains c || c == '_' || isDigitCh c
+/-- the notation's alphabet: gate letters, `_`, `s`, ASCII digits -/
+def inAlphabet (c : Char) : Bool := GATES.contains c || c == '_' || c == 's' || isAsciiDigit c
 
 theorem bodyOf_noSize {t : List Char} (h : 's' ∉ t) : bodyOf t = t := by
   unfold bodyOf
@@ -1219,6 +1284,35 @@ theorem parse_error_of_prefix {x post : List Char} (hx : 's' ∉ x)
 theorem digit_ne_s {c : Char} (h : isDigitCh c = true) : c ≠ 's' := by
   rintro rfl; revert h; decide
 
+
+theorem inAlphabet_false {c : Char} (h : inAlphabet c = false) :
+    c ∉ GATES ∧ c ≠ '_' ∧ c ≠ 's' ∧ isAsciiDigit c = false := by
+  simp only [inAlphabet, Bool.or_eq_false_iff, List.contains_eq_mem, decide_eq_false_iff_not,
+    beq_eq_false_iff_ne] at h
+  exact ⟨h.1.1.1, h.1.1.2, h.1.2, h.2⟩
+
+theorem bodyOf_prefix {x post : List Char} (hx : 's' ∉ x) :
+    bodyOf (x ++ post) = x ++ bodyOf post := by
+  unfold bodyOf
+  induction x with
+  | nil => rfl
+  | cons c t ih =>
+    have hc : c ≠ 's' := fun e => hx (by simp [e])
+    have ht : 's' ∉ t := fun e => hx (List.mem_cons_of_mem _ e)
+    simp [hc]
+    simpa using ih ht
+
+/-- a character outside the alphabet anywhere in the text (body or size part) -/
+theorem parse_bad_char {t : List Char} {c : Char} (hm : c ∈ t) (hc : inAlphabet c = false) :
+    parse t = .error .valueError := by
+  obtain ⟨h1, h2, h3, h4⟩ := inAlphabet_false hc
+  rcases exists_split_s t with hs | ⟨b, a, rfl, hb⟩
+  · rw [parse_noSize hs]; exact parseOps_bad_char hm h1 h2 h4
+  · simp only [List.mem_append, List.mem_cons] at hm
+    rcases hm with hm | hm | hm
+    · exact parse_of_body_error hb (parseOps_bad_char (acc := []) hm h1 h2 h4)
+    · exact absurd hm h3
+    · exact parse_size_nonascii hb ⟨c, hm, h4⟩
 
 end C17
 end PauLie
